@@ -10,9 +10,20 @@
     (optional), the empty list (repeated) or the zero value (required, down to
     the leaves).  [convert_columns] is the column-level algorithm of
     Convert/conversion.Convert on one row (one stream of (value, repetition
-    level, definition level) per leaf column). *)
+    level, definition level) per leaf column).
+
+    One repetition change keeps every value and the whole nesting: a node that
+    is required in the source may be optional in the target (a struct field
+    read into a pointer field, a nullable or merged schema).  [widens tgtN tgt]:
+    [tgt] is [tgtN] with some required nodes optional; the conversion to such a
+    target is the conversion to [tgtN] (no repetition change: [compat src
+    tgtN]) followed by the translation of the definition levels
+    ([widen_columns], the level tables of Convert), and its result is the
+    projection in which the widened nodes are present ([widen_val]).
+    Proofs of that part are in Convert/WidenProofs.v. *)
 From Coq Require Import List Arith Bool NArith Lia.
-From PQ Require Import Dremel.Model Dremel.Proofs Convert.Model Convert.Proofs.
+From PQ Require Import Dremel.Model Dremel.Proofs Convert.Model Convert.Proofs Convert.Widen Convert.WidenProofs.
+From PQ Require Import Convert.Sorting Convert.SortingProofs.
 Import ListNotations.
 
 (** Re-assembling the converted columns of a row with the target schema yields
@@ -93,7 +104,93 @@ Proof.
     exfalso. apply H. now apply (proj1 not_compat_clash).
 Qed.
 
+(** A target that also reads required nodes of the source as optional ones:
+    re-assembling the converted columns with the target schema yields
+    [project_widen]: the projection of the row onto the target in which those
+    nodes are still required, read through the target ([widen_top]): every
+    widened node is present (wrapped, nothing else changes), except that the
+    outermost one is null when every column below it is a per-row placeholder
+    of Convert (nothing below it is read from the source: the library's
+    choice). *)
+Theorem C12_widened_convert_is_projection :
+  forall (V : Type) (zero : N -> V) (src tgtN tgt : nschema) (v : value V) (n : nat) (tails : list (column V)),
+    compat src tgtN = true -> widens tgtN tgt = true ->
+    wf_nschema src -> wf_nschema tgtN -> wf_nschema tgt -> wfn V n (erase src) v ->
+    length tails = nl tgt -> heads_le V 0 tails ->
+    exists cols, convert_widen_columns V zero src tgtN tgt (shred_row (erase src) v) = Some cols /\
+      asm (erase tgt) 0 0 (S n) (zipapp cols tails)
+      = Some (project_widen V zero src tgtN tgt v, tails).
+Proof. exact convert_widen_is_projection. Qed.
+
+(** At column level: the converted columns are the shredding, with the target
+    schema, of that value (levels included). *)
+Theorem C12_widened_columns_are_shredded_projection :
+  forall (V : Type) (zero : N -> V) (src tgtN tgt : nschema) (v : value V) (n : nat),
+    compat src tgtN = true -> widens tgtN tgt = true ->
+    wf_nschema src -> wf_nschema tgtN -> wfn V n (erase src) v ->
+    convert_widen_columns V zero src tgtN tgt (shred_row (erase src) v)
+    = Some (shred_row (erase tgt) (project_widen V zero src tgtN tgt v)).
+Proof. exact convert_widen_is_shred_project. Qed.
+
+(** When no column takes the per-row placeholder, every widened node is
+    present: the record the target sees is the projection with these nodes
+    wrapped. *)
+Theorem C12_widened_nodes_present :
+  forall (V : Type) (zero : N -> V) (src tgtN tgt : nschema) (v : value V),
+    compat src tgtN = true -> wf_nschema tgtN ->
+    Forall (fun h => h = false) (hold_flags V zero src tgtN) ->
+    project_widen V zero src tgtN tgt v = widen_val V tgtN tgt (project V zero src tgtN v).
+Proof. exact project_widen_present. Qed.
+
+(** The translation of the definition levels alone: for every schema, every
+    widening of it and every record, lifting the levels of the shredded
+    columns is shredding the record (widened nodes present) with the widened
+    schema. *)
+Theorem C12_level_translation_is_shredding :
+  forall (V : Type) (s t : nschema) (v : value V),
+    widens s t = true -> wf_nschema s -> wf (erase s) v ->
+    shred_row (erase t) (widen_val V s t v) = widen_columns V s t (shred_row (erase s) v).
+Proof. exact widen_shred_row. Qed.
+
+(** No node widened: nothing is translated, the conversion is the one of the
+    theorems above. *)
+Theorem C12_not_widened :
+  forall (V : Type) (zero : N -> V) (src s : nschema) (cols : list (column V)),
+    length cols = nl s -> widens s s = true /\ widen_columns_top V zero src s s cols = cols.
+Proof. intros V zero src s cols H. split; [apply (proj1 widens_refl)|now apply widen_columns_top_self]. Qed.
+
+(** What a converted row group says about the order of its rows
+    (ConvertRowGroup(...).SortingColumns(), which MergeRowGroups trusts): rows
+    sorted by the columns [ks], column after column ([cmp k] is the order on
+    column [k], direction and nulls included), are sorted by the longest prefix
+    of [ks] whose columns the target keeps, and every declared column is a
+    column of the target.  (The rows keep their order: C12_rows_preserved; a
+    kept column keeps its values: the theorems above.) *)
+Theorem C12_converted_sorting_columns_sound :
+  forall (K R : Type) (cmp : K -> R -> R -> comparison) (kept : K -> bool) (ks : list K) (rows : list R),
+    sorted_by K R cmp ks rows = true ->
+    sorted_by K R cmp (kept_prefix K kept ks) rows = true /\ forallb kept (kept_prefix K kept ks) = true.
+Proof. exact converted_sorting_sound. Qed.
+
+(** Declaring the kept columns that FOLLOW a dropped one is refuted: rows
+    sorted by (a, b) are not sorted by b. *)
+Theorem C12_sorting_after_dropped_column_refuted :
+  let rows := [(1, 9); (2, 1); (3, 5)] in
+  let kept := fun k : nat => negb (Nat.eqb k 0) in
+  sorted_by nat (nat * nat) sx_cmp [0; 1] rows = true /\
+  filter kept [0; 1] = [1] /\
+  sorted_by nat (nat * nat) sx_cmp (filter kept [0; 1]) rows = false /\
+  kept_prefix nat kept [0; 1] = [].
+Proof. exact skipping_dropped_columns_refuted. Qed.
+
+Print Assumptions C12_converted_sorting_columns_sound.
+Print Assumptions C12_sorting_after_dropped_column_refuted.
 Print Assumptions C12_convert_is_projection.
+Print Assumptions C12_widened_convert_is_projection.
+Print Assumptions C12_widened_columns_are_shredded_projection.
+Print Assumptions C12_widened_nodes_present.
+Print Assumptions C12_level_translation_is_shredding.
+Print Assumptions C12_not_widened.
 Print Assumptions C12_convert_is_projection_wf.
 Print Assumptions C12_converted_columns_are_shredded_projection.
 Print Assumptions C12_rows_preserved.
@@ -190,6 +287,90 @@ Example C12_ex_placeholder :
   convert_columns nat zn src tgt [[(Some 4, 0, 0)]] = Some [[(Some 4, 0, 0)]; [(None, 0, 0)]; [(Some 0, 0, 0)]].
 Proof. vm_compute. split; reflexivity. Qed.
 
+(* a target that reads required nodes as optional ones: the required group 3.20
+   and the required leaf 4 of [ex_src] are optional, a column is added in 3.20 *)
+Definition ex_tgtN : nschema :=
+  NGroup (NCons 4 Req (NLeaf 9)
+         (NCons 3 Opt (NGroup (NCons 20 Req (NGroup (NCons 31 Opt (NLeaf 8) (NCons 30 Req (NLeaf 7) NNil))) NNil))
+         (NCons 2 Rpt (NGroup (NCons 11 Req (NLeaf 8) NNil)) NNil))).
+
+Definition ex_tgtW : nschema :=
+  NGroup (NCons 4 Opt (NLeaf 9)
+         (NCons 3 Opt (NGroup (NCons 20 Opt (NGroup (NCons 31 Opt (NLeaf 8) (NCons 30 Opt (NLeaf 7) NNil))) NNil))
+         (NCons 2 Rpt (NGroup (NCons 11 Opt (NLeaf 8) NNil)) NNil))).
+
+Example C12_ex_widens :
+  compat ex_src ex_tgtN = true /\ widens ex_tgtN ex_tgtW = true /\ compat ex_src ex_tgtW = false /\
+  wf_nschema ex_tgtN /\ wf_nschema ex_tgtW.
+Proof. split; [|split; [|split]]; try (vm_compute; reflexivity). cbn. repeat split; auto; lia. Qed.
+
+Example C12_ex_widened_value :
+  project_widen nat zn ex_src ex_tgtN ex_tgtW ex_v =
+  VGroup [VOpt (Some (VLeaf 9));
+          VOpt (Some (VGroup [VOpt (Some (VGroup [VOpt None; VOpt (Some (VLeaf 5))]))]));
+          VList [VGroup [VOpt (Some (VLeaf 2))]; VGroup [VOpt (Some (VLeaf 3))]]].
+Proof. vm_compute. reflexivity. Qed.
+
+Example C12_ex_widened_convert :
+  convert_widen_columns nat zn ex_src ex_tgtN ex_tgtW (shred_row (erase ex_src) ex_v) =
+  Some [ [(Some 9, 0, 1)];                       (* 4: required -> optional, present *)
+         [(None, 0, 2)];                         (* 3.20.31 added: 3 and 3.20 present, 31 null *)
+         [(Some 5, 0, 3)];                       (* 3.20.30: three optional nodes on the path now *)
+         [(Some 2, 0, 2); (Some 3, 1, 2)] ]      (* 2.11 *)
+  /\ convert_widen_columns nat zn ex_src ex_tgtN ex_tgtW (shred_row (erase ex_src) ex_v2) =
+  Some [ [(Some 9, 0, 1)]; [(None, 0, 0)]; [(None, 0, 0)]; [(None, 0, 0)] ]   (* 3 null: nothing below it is lifted *)
+  /\ match convert_widen_columns nat zn ex_src ex_tgtN ex_tgtW (shred_row (erase ex_src) ex_v) with
+     | Some cols => asm (erase ex_tgtW) 0 0 3 (zipapp cols (repeat [] 4))
+     | None => None
+     end = Some (project_widen nat zn ex_src ex_tgtN ex_tgtW ex_v, repeat [] 4).
+Proof. vm_compute. repeat split; reflexivity. Qed.
+
+(* the per-row placeholder below a widened group: the shared group 1 sits at
+   levels (0, 0) of the source and has no direct leaf child, so no source
+   column is read; in the target it is optional and PRESENT, the added optional
+   column is null at definition level 1 and the added required one is defined *)
+Example C12_ex_widened_placeholder :
+  let src := NGroup (NCons 1 Req (NGroup (NCons 2 Req (NGroup (NCons 3 Req (NLeaf 7) NNil)) NNil)) NNil) in
+  let tgtN := NGroup (NCons 1 Req (NGroup (NCons 5 Opt (NLeaf 7) (NCons 2 Req (NGroup (NCons 3 Req (NLeaf 7) NNil))
+                                  (NCons 6 Req (NLeaf 8) NNil)))) NNil) in
+  let tgt := NGroup (NCons 1 Opt (NGroup (NCons 5 Opt (NLeaf 7) (NCons 2 Req (NGroup (NCons 3 Req (NLeaf 7) NNil))
+                                 (NCons 6 Req (NLeaf 8) NNil)))) NNil) in
+  plan nat zn src tgtN 0 0 = [AHold None; ACopy 0; AHold (Some 0)] /\
+  convert_widen_columns nat zn src tgtN tgt [[(Some 4, 0, 0)]]
+  = Some [[(None, 0, 1)]; [(Some 4, 0, 1)]; [(Some 0, 0, 1)]].
+Proof. vm_compute. split; reflexivity. Qed.
+
+(* the free choice: nothing below the widened group 1 is read from the source
+   (both columns are per-row placeholders): the group reads as null, also the
+   required added leaf is a null at level 0; as soon as one column below it is
+   copied (example above) the group is present for every column *)
+Example C12_ex_widened_null :
+  let src := NGroup (NCons 1 Req (NGroup (NCons 2 Req (NGroup (NCons 3 Req (NLeaf 7) NNil)) NNil))
+                    (NCons 9 Req (NLeaf 7) NNil)) in
+  let tgtN := NGroup (NCons 1 Req (NGroup (NCons 5 Opt (NLeaf 7) (NCons 6 Req (NLeaf 8) NNil)))
+                     (NCons 9 Req (NLeaf 7) NNil)) in
+  let tgt := NGroup (NCons 1 Opt (NGroup (NCons 5 Opt (NLeaf 7) (NCons 6 Req (NLeaf 8) NNil)))
+                    (NCons 9 Opt (NLeaf 7) NNil)) in
+  hold_flags nat zn src tgtN = [true; true; false] /\
+  project_widen nat zn src tgtN tgt (VGroup [VGroup [VGroup [VLeaf 4]]; VLeaf 8])
+  = VGroup [VOpt None; VOpt (Some (VLeaf 8))] /\
+  convert_widen_columns nat zn src tgtN tgt [[(Some 4, 0, 0)]; [(Some 8, 0, 0)]]
+  = Some [[(None, 0, 0)]; [(None, 0, 0)]; [(Some 8, 0, 1)]] /\
+  columns_of nat zn src tgtN tgt = [None; None; Some 1].
+Proof. vm_compute. repeat split; reflexivity. Qed.
+
+(* Conversion.Column of a placeholder column below a widened node that is
+   present: the fill path reads the first column of the shared group *)
+Example C12_ex_widened_columns :
+  let src := NGroup (NCons 1 Req (NGroup (NCons 2 Req (NGroup (NCons 3 Req (NLeaf 7) NNil)) NNil)) NNil) in
+  let tgtN := NGroup (NCons 1 Req (NGroup (NCons 5 Opt (NLeaf 7) (NCons 2 Req (NGroup (NCons 3 Req (NLeaf 7) NNil))
+                                  (NCons 6 Req (NLeaf 8) NNil)))) NNil) in
+  let tgt := NGroup (NCons 1 Opt (NGroup (NCons 5 Opt (NLeaf 7) (NCons 2 Req (NGroup (NCons 3 Req (NLeaf 7) NNil))
+                                 (NCons 6 Req (NLeaf 8) NNil)))) NNil) in
+  columns_of nat zn src tgtN tgtN = [None; Some 0; None] /\
+  columns_of nat zn src tgtN tgt = [Some 0; Some 0; Some 0].
+Proof. vm_compute. split; reflexivity. Qed.
+
 (* incompatible: field 2 is a leaf in the target, field 3 changes repetition *)
 Example C12_ex_rejected :
   convert_columns nat zn ex_src (NGroup (NCons 2 Rpt (NLeaf 7) NNil)) [] = None /\
@@ -239,5 +420,35 @@ Theorem C12_pinned_no_leaf_sibling_refuted :
   shred_row (erase py_tgt) (project nat zn py_src py_tgt py_v) = [ [(Some 5, 0, 1)]; [(None, 0, 1)] ].
 Proof. repeat split; vm_compute; auto. Qed.
 
+(* a column added below a group that only the target makes optional, next to a
+   column both sides have (repaired in 989a01a, f1d59c6): the placeholder says
+   "group null", the copied column says "group present"; assembling takes the
+   first column's word and the value 7 is lost *)
+Definition pw_src : nschema :=
+  NGroup (NCons 1 Req (NGroup (NCons 2 Req (NGroup (NCons 3 Req (NLeaf 7) NNil)) NNil)) NNil).
+Definition pw_tgtN : nschema :=
+  NGroup (NCons 1 Req (NGroup (NCons 4 Opt (NLeaf 7) (NCons 2 Req (NGroup (NCons 3 Req (NLeaf 7) NNil)) NNil))) NNil).
+Definition pw_tgt : nschema :=
+  NGroup (NCons 1 Opt (NGroup (NCons 4 Opt (NLeaf 7) (NCons 2 Req (NGroup (NCons 3 Req (NLeaf 7) NNil)) NNil))) NNil).
+Definition pw_v : value nat := VGroup [VGroup [VGroup [VLeaf 7]]].
+
+Theorem C12_pinned_placeholder_below_widened_group_refuted :
+  compat pw_src pw_tgtN = true /\ widens pw_tgtN pw_tgt = true /\ wfn nat 0 (erase pw_src) pw_v /\
+  convert_widen_columns_pinned nat zn pw_src pw_tgtN pw_tgt (shred_row (erase pw_src) pw_v)
+  = [ [(None, 0, 0)]; [(Some 7, 0, 1)] ] /\
+  convert_widen_columns nat zn pw_src pw_tgtN pw_tgt (shred_row (erase pw_src) pw_v)
+  = Some [ [(None, 0, 1)]; [(Some 7, 0, 1)] ] /\
+  project_widen nat zn pw_src pw_tgtN pw_tgt pw_v = VGroup [VOpt (Some (VGroup [VOpt None; VGroup [VLeaf 7]]))] /\
+  asm (erase pw_tgt) 0 0 1
+      (zipapp (convert_widen_columns_pinned nat zn pw_src pw_tgtN pw_tgt (shred_row (erase pw_src) pw_v)) [[]; []])
+  <> Some (project_widen nat zn pw_src pw_tgtN pw_tgt pw_v, [[]; []]).
+Proof.
+  split; [vm_compute; reflexivity|]. split; [vm_compute; reflexivity|].
+  split; [cbn; repeat split; auto|]. split; [vm_compute; reflexivity|].
+  split; [vm_compute; reflexivity|]. split; [vm_compute; reflexivity|].
+  vm_compute. intros H. discriminate H.
+Qed.
+
 Print Assumptions C12_pinned_repeated_sibling_refuted.
+Print Assumptions C12_pinned_placeholder_below_widened_group_refuted.
 Print Assumptions C12_pinned_no_leaf_sibling_refuted.
